@@ -12,9 +12,17 @@ def build_wf(n, links, rem, rev=False):
     sp = {"tasks": [{"name": F.tname(i), "work": float(rem[i])} for i in range(n)], "links": [list(l) for l in links]}
     if rev is True:
         sp["hash"] = list(range(n))[::-1]
+    if rev == "auto-rate":
+        for i, t_ in enumerate(sp["tasks"]):
+            if i % 2 == 1:
+                t_["auto"], t_["unit"] = True, 0.5
+    if rev == "prefinished" and n > 1:
+        sp["tasks"][1]["progress"] = 1.0  # a non-head task that is FINISHED from the start
     if rev == "order":
         sp["order"] = list(range(n))[::-1]  # task_list not in precedence order  # the sets inside the PERT passes are then iterated in the opposite order
     m = S.build(sp)
+    if rev == "prefinished" and n > 1:
+        pass  # remaining work of the pre-finished task is 0; workflow.initialize() puts it into FINISHED
     if rev == "samename":
         for x in m.tasks:  # different tasks may carry the same name (IDs stay distinct)
             x.name = "step"
@@ -167,6 +175,8 @@ def hist_items(tier):
                         out.append((n, links, rem0, 2, True))
                         out.append((n, links, rem0, 1, "samename"))
                         out.append((n, links, rem0, 2, "order"))
+                        out.append((n, links, rem0, 1, "auto-rate"))
+                        out.append((n, links, rem0, 2, "prefinished"))
         for links in F.fs_dags(4):
             for rem0 in itertools.product((0, 1, 2), repeat=4):
                 out.append((4, links, rem0, 3 if sum(rem0) % 2 == 0 else 1, False))
